@@ -79,7 +79,9 @@ theorem drop_matches (cfg : Cfg) (j : Msg) (hnr : j.isRequestOrNotification = fa
   cases j.hasE <;> cases cfg.allowPush <;> cases hr : j.r <;> simp [GoNil.isNil]
 
 /-- a single non-batch message is sent bare, anything else as an array -/
-theorem toJSON_single_matches (n : Int) (b : Bool) : Funcs.toJSONSingle n b = (n == 1 && !b) := rfl
+theorem toJSON_single_matches (n : Int) (b : Bool) : Funcs.toJSONSingle n b = (n == 1 && !b) := by
+  unfold Funcs.toJSONSingle
+  by_cases h : n = 1 <;> cases b <;> simp [h, bne]
 
 /-- the protocol error sentinels carry the codes the model answers with -/
 theorem sentinel_codes :
